@@ -607,8 +607,10 @@ func certFirstBlockRule(w *World, r *Report, rule string) {
 		}
 		n++
 		ok := true
-		alts := all.LiveValues(blk)
-		for _, alt := range alts {
+		_ = all
+		alts := w.LiveValuesDeep(fn, func(ssa.Value) (bool, bool) { return false, false }, blk, 2)
+		for _, dv := range alts {
+			alt := dv.V
 			ex, isEx := alt.(*ssa.Extract)
 			if !isEx || ex.Index != 0 {
 				ok = false
@@ -619,7 +621,20 @@ func certFirstBlockRule(w *World, r *Report, rule string) {
 				ok = false
 				continue
 			}
-			if _, isP := normLocal(c.Common().Args[0]).(*ssa.Parameter); !isP {
+			// the text decoded is the parsing function's own parameter, handed down unchanged when the decode sits in a helper
+			arg, ctx := normLocal(c.Common().Args[0]), dv.Ctx
+			for ctx != nil && ctx.call != nil && ctx.fn != fn {
+				hp, isHP := arg.(*ssa.Parameter)
+				if !isHP {
+					break
+				}
+				i := paramIndex(ctx.fn, hp)
+				if i < 0 || i >= len(ctx.call.Args) {
+					break
+				}
+				arg, ctx = normLocal(ctx.call.Args[i]), ctx.parent
+			}
+			if pp, isP := arg.(*ssa.Parameter); !isP || pp.Parent() != fn {
 				ok = false
 			}
 		}
